@@ -118,7 +118,7 @@ func renderMethod(w *writer, mp *mplan, sty style) {
 	if sty.allman {
 		w.line(u + "{")
 	}
-	m.Calls = nil
+	m.Calls, m.Refs = nil, nil
 	for _, s := range mp.stmts {
 		base := len(w.lines) + 1
 		for _, l := range s.lines {
@@ -131,6 +131,10 @@ func renderMethod(w *writer, mp *mplan, sty style) {
 		for _, c := range s.calls {
 			c.Line += base
 			m.Calls = append(m.Calls, c)
+		}
+		for _, c := range s.refs {
+			c.Line += base
+			m.Refs = append(m.Refs, c)
 		}
 	}
 	sort.SliceStable(m.Calls, func(i, j int) bool { return m.Calls[i].Line < m.Calls[j].Line })
@@ -221,6 +225,25 @@ func SelfCheck(t *Tree) error {
 					return fmt.Errorf("%s.%s: identical arguments on a %d-argument call", f.RelPath, m.Name, c.NArgs)
 				}
 			}
+			for _, c := range m.Refs {
+				if !strings.Contains(at(c.Line), c.Recv+"::"+c.Name) {
+					return fmt.Errorf("%s.%s: method reference %s::%s not on line %d", f.RelPath, m.Name, c.Recv, c.Name, c.Line)
+				}
+				if c.Prefix != "" {
+					// an assertion reference must not be able to change a finding: the body asserts directly and
+					// calls no assertion of that name
+					direct, same := false, false
+					for _, d := range m.Calls {
+						if d.Kind == KindAssert {
+							direct = true
+							same = same || d.Name == c.Name
+						}
+					}
+					if m.IsTestMethod() && (!direct || same) {
+						return fmt.Errorf("%s.%s: assertion reference %s could change a finding", f.RelPath, m.Name, c.Form)
+					}
+				}
+			}
 			if f.IsTest() && m.IsTestMethod() {
 				if why := Ambiguous(m.Calls, nonTests); why != "" {
 					return fmt.Errorf("%s.%s: %s", f.RelPath, m.Name, why)
@@ -252,6 +275,9 @@ func Shape(t *Tree) string {
 					k += "=="
 				}
 				counts[k]++
+			}
+			for _, c := range m.Refs {
+				counts["ref "+c.Form]++
 			}
 			var ks []string
 			for k := range counts {
